@@ -3,9 +3,9 @@
 package verifharness_test
 
 import (
-	"sort"
 	"fmt"
 	"math/rand/v2"
+	"sort"
 	"strconv"
 	"strings"
 	"testing"
